@@ -260,6 +260,38 @@ def regexApp (s : Str) (p : Nat) : List (Rx × List Piece) → RuleRes
 def regexRule (es : List (Rx × List Piece)) (prot : Option Prot := none) : Rule :=
   { app := fun s p => regexApp s p es, prot := prot }
 
+/-- zero-width assertions at the start of a pattern that look at what precedes the current position: `^` (the
+    pattern object is matched with `regex.match(s, pos)`, so `^` holds at position 0 only) and a one-character
+    look-behind `(?<=[…])` / `(?<![…])` -/
+inductive Guard
+  | none
+  | start
+  | behind (neg : Bool) (ranges : List (Nat × Nat))
+deriving Repr
+
+def Guard.ok : Guard → Str → Nat → Bool
+  | .none, _, _ => true
+  | .start, _, p => p == 0
+  | .behind neg rs, s, p =>
+    match p with
+    | 0 => neg
+    | q + 1 =>
+      match s[q]? with
+      | some c => (rs.any (fun r => r.1 ≤ c.toNat && c.toNat ≤ r.2)) != neg
+      | Option.none => neg
+
+def regexAppG (s : Str) (p : Nat) : List (Guard × Rx × List Piece) → RuleRes
+  | [] => .miss
+  | (g, rx, repl) :: es =>
+    if g.ok s p then
+      match rxMatchLen rx (s.drop p) with
+      | some n => .hit n (expandRepl repl ((s.drop p).take n))
+      | Option.none => regexAppG s p es
+    else regexAppG s p es
+
+def regexRuleG (es : List (Guard × Rx × List Piece)) (prot : Option Prot := none) : Rule :=
+  { app := fun s p => regexAppG s p es, prot := prot }
+
 /-- the family of `RULE_CALLABLE` rules that harness and model both implement -/
 inductive Fam
   | upperRun (k : Nat)                 -- `≥ k` ASCII capitals → `(len, '{' + run + '}')`
@@ -395,6 +427,22 @@ def decodeEntry (toks : List String) : Option (Rx × List Piece) :=
     | _, _ => none
   | _ => none
 
+def decodeGuard (f : String) : Option Guard :=
+  match f.splitOn ":" with
+  | ["g", "-"] => some .none
+  | ["g", "A"] => some .start
+  | ["g", "P", neg, rs] =>
+    (allSome ((if rs.isEmpty then [] else rs.splitOn ".").map decodeRange)).map (fun rs => .behind (neg == "1") rs)
+  | _ => Option.none
+
+def decodeEntryG (toks : List String) : Option (Guard × Rx × List Piece) :=
+  match toks with
+  | g :: rest =>
+    match decodeGuard g, decodeEntry rest with
+    | some g, some (i, p) => some (g, i, p)
+    | _, _ => Option.none
+  | [] => Option.none
+
 def decodeDictEntry (f : String) : Option (Nat × Str) :=
   match f.splitOn "=" with
   | [k, v] => match parseHex k, decodeStr v with
@@ -428,6 +476,10 @@ def decodeRule (f : String) : Option Rule :=
   | "R" :: pr :: toks =>
     match decodeOptProt pr, allSome (((splitTokens "/" toks).filter (fun g => !g.isEmpty)).map decodeEntry) with
     | some pr, some es => some (regexRule es pr)
+    | _, _ => none
+  | "RG" :: pr :: toks =>
+    match decodeOptProt pr, allSome (((splitTokens "/" toks).filter (fun g => !g.isEmpty)).map decodeEntryG) with
+    | some pr, some es => some (regexRuleG es pr)
     | _, _ => none
   | "F" :: pr :: toks =>
     match decodeOptProt pr, decodeFam toks with
